@@ -233,8 +233,14 @@ func (sf *SpecFile) merge(sub *SpecFile, prefix string) error {
 		sf.FunOrder = append(sf.FunOrder, n)
 	}
 	sf.Ghosts = append(sf.Ghosts, sub.Ghosts...)
-	sf.Axioms = append(sf.Axioms, sub.Axioms...)
-	sf.Lemmas = append(sf.Lemmas, sub.Lemmas...)
+	for _, c := range sub.Axioms {
+		c.Pkg = strings.TrimSuffix(prefix, ".")
+		sf.Axioms = append(sf.Axioms, c)
+	}
+	for _, c := range sub.Lemmas {
+		c.Pkg = strings.TrimSuffix(prefix, ".")
+		sf.Lemmas = append(sf.Lemmas, c)
+	}
 	sf.Guarded = append(sf.Guarded, sub.Guarded...)
 	for _, c := range sub.GlobalInvs {
 		c.Pkg = strings.TrimSuffix(prefix, ".")
